@@ -105,6 +105,9 @@ class ParseFlowRoute(Section):
 
     def post(self) -> bool:
         route: Any = self.scope.get_route()
+        foreign: str = route.nlri.foreign()
+        if foreign:
+            return self.error.set(f'{foreign} is an IPv6 component, the flow needs an IPv6 destination or source')
         # Recreate NLRI with correct SAFI if RD is present
         # (avoids SAFI mutation which is incompatible with class-level SAFI)
         if route.nlri.rd is not RouteDistinguisher.NORD and route.nlri.safi != SAFI.flow_vpn:
